@@ -250,3 +250,16 @@ Proof.
   induction cs as [|c r IH]; intros k s; simpl; [reflexivity|].
   destruct (step e s c) as [s1 o]. rewrite (IH (S k) s1). reflexivity.
 Qed.
+
+(* ---------- the map-iteration sites of the source are exactly the modelled ones ---------- *)
+(* [enum] is applied in the model at: the vote tally of Voting.outcomeIndex ([outcome_index]),
+   the two loops of DiffPowermaps ([diff_remove], [diff_update] through [diff_powermaps_enum])
+   and Powermap.ValidatorUpdates ([validator_updates_enum]).  Generated/MapRanges.v lists every
+   `range` over a map that go/types finds in rolling-shutter/app on this run. *)
+From Coq Require Import String.
+From Verif Require Import Generated.MapRanges.
+Definition modelled_map_range_sites : list string :=
+  ["powermap.go:DiffPowermaps:newpm"%string; "powermap.go:DiffPowermaps:oldpm"%string;
+   "powermap.go:ValidatorUpdates:pm"%string; "voting.go:outcomeIndex:v.Votes"%string].
+Lemma map_range_sites_are_modelled : gen_map_range_sites = modelled_map_range_sites.
+Proof. reflexivity. Qed.
